@@ -4,6 +4,8 @@ from __future__ import annotations
 
 import ast
 
+import numpy as np
+
 from .. import AnalysisError
 from ..accessors import AccessorEval, Raised, Rec
 from ..symarr import NotSymbolic
@@ -67,9 +69,18 @@ def check_field_semantics(ctx, rid_round="R3", rid_prec="R4", rid_defaults="R5")
         ev2._block(prefix, local)
         return local[fvar]
 
+    mo_cls = prog.cls("iodata.orbitals.MolecularOrbitals")
+
     def mk(**kw):
-        f = dict(title="T", charge=0.0, spinpol=0.0, lot="B3LYP", obasis_name="def2", run_type="opt", natom=2, atnums=None, atcoords=None, nelec=None, mo=None)
-        f.update(kw)
+        """An abstract IOData instance with its *stored* fields; charge / spinpol / nelec are read through the class's
+        own property getters (so a writer that reads the hidden `_spinpol` / `_charge` instead of the property is seen)."""
+        f = {name: None for name in iocls.fields}
+        f.update(title="T", lot="B3LYP", obasis_name="def2", run_type="opt", _charge=0.0, _spinpol=0.0)
+        for k, v in kw.items():
+            f[{"charge": "_charge", "spinpol": "_spinpol", "nelec": "_nelec"}.get(k, k)] = v
+        for k in list(f):
+            if k not in iocls.fields:
+                raise AnalysisError(f"C19: IOData has no stored field `{k}` any more")
         return Rec(iocls, **f)
 
     nprog = 0
@@ -102,6 +113,14 @@ def check_field_semantics(ctx, rid_round="R3", rid_prec="R4", rid_defaults="R5")
                 got = fields_of(short, wi, mk(spinpol=sp), {}).get("spinmult")
                 if got != want:
                     return f"spin polarisation {sp} gives multiplicity {got!r}, expected {want}"
+            # derived values: with orbitals the spin polarisation / electron count are those of the orbitals, with core
+            # charges the charge is their sum minus the electrons -- whatever the hidden stored values say
+            mo = Rec(mo_cls, spinpol=2.0, nelec=8.0)
+            d = fields_of(short, wi, mk(mo=mo, spinpol=None, charge=None, _atcorenums=np.array([8.0, 1.0, 1.0])), {})
+            if d.get("spinmult") != 3:
+                return f"orbitals with spin polarisation 2 give multiplicity {d.get('spinmult')!r}, expected 3 (the stored `_spinpol` is not the spin polarisation when orbitals are present)"
+            if d.get("charge") != 2:
+                return f"core charges 10 and 8 electrons give charge {d.get('charge')!r}, expected 2 (the stored `_charge` is not the charge when it can be derived)"
             return None
         run(rid_round, f"{short}: charge rounded to the nearest integer (0 when unknown), multiplicity = round(|spinpol|) + 1 (1 when unknown) over 14 values", f)
 
